@@ -165,12 +165,15 @@ GROUPS = [('slots_alloc', 'h_slots', 0, 0, {}), ('slots_rel_init', 'h_slots', 1,
           ('g_acquire_if_equal', 'h_guards', 9, 9, {}),
           ('int_acquire', 'h_int', 0, 0, dict(mode='INT', note='retry loop of acquire cut by invariant ACQ; source cell and era clock rewritten by the environment before each load of them')),
           ('int_acquire_if_equal', 'h_int', 1, 1, dict(mode='INT')),
-          ] + [('dyn_B%d' % b, 'h_dyn', 0, 1, dict(dyn=True, nblk=b, note='dynamic strategy: %d block(s) of K slots exist beforehand, one more can be allocated; alloc_hazard_era and initialize' % b)) for b in (0, 1, 2)]
+          ] + [('dyn_alloc_B%d' % b, 'h_dyn', 0, 0, dict(dyn=True, nblk=b, note='dynamic strategy: %d block(s) of K slots exist beforehand, one more can be allocated' % b)) for b in (0, 1, 2)
+          ] + [('dyn_init_B%d' % b, 'h_dyn', 1, 1, dict(dyn=True, nblk=b, note='dynamic strategy: initialize on a left-over record with %d block(s)' % b)) for b in (0, 1, 2)]
 RUNS = []
 for k in KS_QUICK + [8]:
     for name, entry, lo, hi, extra in GROUPS:
         extra = dict(extra); dyn = extra.pop('dyn', False); nblk = extra.pop('nblk', None)
-        tiers = ['quick', 'thorough'] if (k in KS_QUICK and not (dyn and k == 5)) else ['thorough']
+        quick = k in KS_QUICK
+        if dyn and name.startswith('dyn_alloc') and (k, nblk) not in [(1, 0), (1, 1), (1, 2), (2, 0), (2, 1), (2, 2), (3, 0), (3, 1)]: quick = False   # larger slot universes: thorough tier
+        tiers = ['quick', 'thorough'] if quick else ['thorough']
         nslot = (3 * k + max(k, (3 * k) // 2)) if dyn else k
         defs = {'XV_K': k, 'XV_OPS_LO': lo, 'XV_OPS_HI': hi}
         if dyn: defs['XV_DYN'] = 1; defs['XV_NBLK'] = nblk
